@@ -44,7 +44,8 @@ func addORShortcut(node ischema.Node, rootSchema *ischema.ISchema, val string) {
 		CompileBasic(&typ, true)
 
 		lex := node.BasisLexEventOfSchemaForNode()
-		rootSchema.AddUnnamedType(&typ, lex.File(), lex.Begin())
+		// The lexemes of the node are positions in this file already: no offset.
+		rootSchema.AddUnnamedType(&typ, lex.File(), 0)
 
 		s = strings.TrimSpace(s)
 		ss.AddName(s, s, schema.RuleASTNodeSourceGenerated)
